@@ -1,0 +1,155 @@
+//go:build verif
+
+package keeper
+
+// C08 / C09 (message layer, agent W): the message-server entry points of the vesting module.
+// Every entry point runs after ValidateBasic (baseapp), so its precondition is exactly ValidateBasic's postcondition
+// (specfuncs CreateMsgValid / IntoMsgValid / UpdMsgValid in x/vesting/types/zz_contracts_c09m_verif.go).
+
+/*@
+alias CVAm github.com/haqq-network/haqq/x/vesting/types.ClawbackVestingAccount
+alias BVAm github.com/cosmos/cosmos-sdk/x/auth/vesting/types.BaseVestingAccount
+alias EthAcctM github.com/haqq-network/haqq/types.EthAccount
+
+// C09 / C08: a grant is paid by the FUNDER (msg.FromAddress = the signer), amounts to exactly the total of the vesting schedule
+// (= the total of the lockup schedule), and is recorded with the message's schedules anchored at msg.StartTime; merging into
+// an existing clawback account needs `merge` and the account's recorded funder; blocked / module addresses are refused.
+func (Keeper).CreateClawbackVestingAccount
+    ghostvar u int
+    let from = addr_of_bech32(old(msg.FromAddress))
+    let to = addr_of_bech32(old(msg.ToAddress))
+    let L0 = old(msg.LockupPeriods)
+    let V0 = old(msg.VestingPeriods)
+    let grant = ite(len(V0) > 0, Sum(V0, len(V0)), Sum(L0, len(L0)))
+    let s = time_unix(old(msg.StartTime))
+    // an absent schedule defaults to "everything at the start instant"
+    let lockRel = ite(len(L0) > 0, Ended(s, L0, len(L0), u), ite(s <= u, grant, coins_zero()))
+    let vestRel = ite(len(V0) > 0, Ended(s, V0, len(V0), u), ite(s <= u, grant, coins_zero()))
+    requires msg: msg != nil && CreateMsgValid(*msg)
+    modifies *msg, bank_bal, acct_iscva, acct_cva, acct_bva, heap(CVAm), heap(BVAm)
+    ensures blocked_refused: result.1 == nil ==> !ret(BlockedAddr, 1, 0)
+    call BlockedAddr requires target: addr == to
+    ensures paid: result.1 == nil ==> bank_bal == bank_move(old(bank_bal), from, to, grant)
+    ensures both_totals: result.1 == nil ==> grant == Sum(msg.VestingPeriods, len(msg.VestingPeriods)) && grant == Sum(msg.LockupPeriods, len(msg.LockupPeriods))
+    ensures refused: result.1 != nil ==> bank_bal == old(bank_bal)
+    ensures only_target: acct_iscva == upd(old(acct_iscva), to, acct_iscva[to]) && acct_cva == upd(old(acct_cva), to, acct_cva[to])
+            && acct_bva == upd(old(acct_bva), to, acct_bva[to])
+    ensures is_vesting: result.1 == nil ==> acct_iscva[to]
+    ensures merge_rule: result.1 == nil && old(acct_iscva[to]) ==> old(msg.Merge) && old(acct_cva[to].FunderAddress) == old(msg.FromAddress)
+    ensures funder: result.1 == nil ==> acct_cva[to].FunderAddress == ite(old(acct_iscva[to]), old(acct_cva[to].FunderAddress), addr_string(from))
+    ensures lockup: result.1 == nil ==> StoredLock(acct_iscva, acct_cva, to, u) == cadd(old(StoredLock(acct_iscva, acct_cva, to, u)), lockRel)
+    ensures vesting: result.1 == nil ==> StoredVest(acct_iscva, acct_cva, to, u) == cadd(old(StoredVest(acct_iscva, acct_cva, to, u)), vestRel)
+    ensures total: result.1 == nil ==> acct_bva[to].OriginalVesting == cadd(ite(old(acct_iscva[to]), old(acct_bva[to].OriginalVesting), coins_zero()), grant)
+    ensures new_start: result.1 == nil && !old(acct_iscva[to]) ==> acct_cva[to].StartTime == old(msg.StartTime)
+    ensures stored_valid: result.1 == nil ==> Sum(acct_cva[to].LockupPeriods, len(acct_cva[to].LockupPeriods)) == acct_bva[to].OriginalVesting
+            && Sum(acct_cva[to].VestingPeriods, len(acct_cva[to].VestingPeriods)) == acct_bva[to].OriginalVesting
+    // a validated message never reaches the "totals differ" error: ValidateBasic already compared them
+    unreachable return: return nil, errorsmod.Wrapf(errortypes.ErrInvalidRequest,
+    use entry EndedBounds(0, msg.LockupPeriods, len(msg.LockupPeriods), 0)
+    use entry EndedBounds(0, msg.VestingPeriods, len(msg.VestingPeriods), 0)
+    unfold Ended(s, msg.LockupPeriods, 1, u)
+    unfold T(s, msg.LockupPeriods, 1)
+    unfold Sum(msg.LockupPeriods, 1)
+    unfold Ended(s, msg.VestingPeriods, 1, u)
+    unfold T(s, msg.VestingPeriods, 1)
+    unfold Sum(msg.VestingPeriods, 1)
+func (Keeper).UpdateVestingFunder
+    let a = addr_of_bech32(msg.VestingAddress)
+    requires msg: msg != nil && UpdMsgValid(*msg)
+    modifies acct_iscva, acct_cva, acct_bva, heap(CVAm)
+    // blocked / module addresses are refused as new funders
+    ensures blocked_refused: result.1 == nil ==> !ret(BlockedAddr, 1, 0)
+    call BlockedAddr requires new_funder: addr == addr_of_bech32(msg.NewFunderAddress)
+    // only the recorded funder (the signer, MsgUpdateVestingFunder.GetSigners) can hand the funder role over
+    ensures authorized: result.1 == nil ==> old(acct_iscva[a]) && old(acct_cva[a].FunderAddress) == msg.FunderAddress
+    // the stored funder string names the new funder: the message's string or its canonical encoding
+    ensures updated: result.1 == nil ==> acct_cva[a].FunderAddress == msg.NewFunderAddress
+            || acct_cva[a].FunderAddress == addr_string(addr_of_bech32(msg.NewFunderAddress))
+    // Observation (no clause; DESIGN.md §12.3, W1): the raw msg.NewFunderAddress string is stored. An all-upper-case bech32 string
+    // passes ValidateBasic, while Clawback and ApplyVestingSchedule compare the stored string with funder.String() (lower case): such
+    // a new funder cannot exercise the role until the funder is updated again. "Only the recorded funder" (C09) is not affected, so
+    // no obligation demands the canonical form.
+    // nothing but FunderAddress changes: schedule, start, code hash, and the whole base vesting account
+    ensures only_funder: result.1 == nil ==> acct_cva[a].StartTime == old(acct_cva[a].StartTime)
+            && acct_cva[a].LockupPeriods == old(acct_cva[a].LockupPeriods) && acct_cva[a].VestingPeriods == old(acct_cva[a].VestingPeriods)
+            && acct_cva[a].CodeHash == old(acct_cva[a].CodeHash) && acct_cva[a].BaseVestingAccount == old(acct_cva[a].BaseVestingAccount)
+    ensures base_unchanged: acct_bva == old(acct_bva) && acct_iscva == old(acct_iscva)
+    ensures others: acct_cva == upd(old(acct_cva), a, acct_cva[a])
+    ensures refused: result.1 != nil ==> acct_cva == old(acct_cva)
+// C09 / C08: converting an account into a clawback vesting account (or merging a grant into one). Who may call it: anybody who
+// pays - the signer is msg.FromAddress and it becomes (must already be, for a merge) the recorded funder; the target needs not
+// sign. The grant (exactly the schedule total) is paid by the signer; contract accounts and blocked addresses are refused; the
+// schedules recorded are the message's, anchored at msg.StartTime; with `stake`, exactly the already-vested bond-denom coins of
+// the message's vesting schedule are delegated from the target (and at least one must have vested).
+func (Keeper).ConvertIntoVestingAccount
+    ghostvar u int
+    let from = addr_of_bech32(old(msg.FromAddress))
+    let to = IntoTarget(old(msg.ToAddress))
+    let L0 = old(msg.LockupPeriods)
+    let V0 = old(msg.VestingPeriods)
+    let grant = ite(len(V0) > 0, Sum(V0, len(V0)), Sum(L0, len(L0)))
+    let s = time_unix(old(msg.StartTime))
+    let now = time_unix(ctx_blocktime(ctx_unwrap(goCtx)))
+    let bd = sk_bonddenom(k.stakingKeeper, ctx_unwrap(goCtx))
+    let lockRel = ite(len(L0) > 0, Ended(s, L0, len(L0), u), ite(s <= u, grant, coins_zero()))
+    let vestRel = ite(len(V0) > 0, Ended(s, V0, len(V0), u), ite(s <= u, grant, coins_zero()))
+    // what has vested of the grant at block time (an absent vesting schedule vests everything at the start instant)
+    let vestedNow = ite(now <= s, coins_zero(), ite(len(V0) > 0, Ended(s, V0, len(V0), now), grant))
+    requires msg: msg != nil && IntoMsgValid(*msg)
+    modifies *msg, bank_bal, acct_iscva, acct_cva, acct_bva, stk_delegated, heap(CVAm), heap(BVAm)
+    ensures blocked_refused: result.1 == nil ==> !ret(BlockedAddr, 1, 0)
+    call BlockedAddr requires target: addr == to
+    ensures contract_refused: result.1 == nil && isdyn(ret(GetAccount, 1, 0), *EthAcctM) ==> !oldheap(eth_is_contract(*dyn(ret(GetAccount, 1, 0), *EthAcctM)))
+    call GetAccount requires target: addr == to
+    ensures paid: result.1 == nil && !old(msg.Stake) ==> bank_bal == bank_move(old(bank_bal), from, to, grant)
+    ensures paid_staked: result.1 == nil && old(msg.Stake) ==> (exists pool Addr :: bank_bal == bank_move(bank_move(old(bank_bal), from, to, grant), to, pool, cone(bd, vestedNow[bd])))
+    ensures staked: result.1 == nil && old(msg.Stake) ==> vestedNow[bd] > 0 && vestedNow[bd] <= grant[bd]
+            && stk_delegated == upd(old(stk_delegated), to, old(stk_delegated)[to] + vestedNow[bd])
+    ensures not_staked: result.1 == nil && !old(msg.Stake) ==> stk_delegated == old(stk_delegated)
+    ensures both_totals: result.1 == nil ==> grant == Sum(msg.VestingPeriods, len(msg.VestingPeriods)) && grant == Sum(msg.LockupPeriods, len(msg.LockupPeriods))
+    ensures only_target: result.1 == nil ==> acct_iscva == upd(old(acct_iscva), to, true) && acct_cva == upd(old(acct_cva), to, acct_cva[to])
+            && acct_bva == upd(old(acct_bva), to, acct_bva[to])
+    ensures merge_rule: result.1 == nil && old(acct_iscva[to]) ==> old(msg.Merge) && old(acct_cva[to].FunderAddress) == addr_string(from)
+    ensures funder: result.1 == nil ==> acct_cva[to].FunderAddress == addr_string(from)
+    ensures lockup: result.1 == nil ==> StoredLock(acct_iscva, acct_cva, to, u) == cadd(old(StoredLock(acct_iscva, acct_cva, to, u)), lockRel)
+    ensures vesting: result.1 == nil ==> StoredVest(acct_iscva, acct_cva, to, u) == cadd(old(StoredVest(acct_iscva, acct_cva, to, u)), vestRel)
+    ensures total: result.1 == nil ==> acct_bva[to].OriginalVesting == cadd(ite(old(acct_iscva[to]), old(acct_bva[to].OriginalVesting), coins_zero()), grant)
+    ensures new_start: result.1 == nil && !old(acct_iscva[to]) ==> acct_cva[to].StartTime == old(msg.StartTime)
+    // a validated message never reaches the "invalid target address" and "totals differ" errors: ValidateBasic checked both
+    unreachable return: return nil, errorsmod.Wrapf(errortypes.ErrInvalidAddress,
+    unreachable return: return nil, errorsmod.Wrapf(errortypes.ErrInvalidRequest,#2
+    use entry EndedBounds(0, msg.LockupPeriods, len(msg.LockupPeriods), 0)
+    use entry EndedBounds(0, msg.VestingPeriods, len(msg.VestingPeriods), 0)
+    unfold Ended(s, msg.LockupPeriods, 1, u)
+    unfold T(s, msg.LockupPeriods, 1)
+    unfold Sum(msg.LockupPeriods, 1)
+    unfold Ended(s, msg.VestingPeriods, 1, u)
+    unfold T(s, msg.VestingPeriods, 1)
+    unfold Sum(msg.VestingPeriods, 1)
+    unfold Ended(s, msg.VestingPeriods, 1, now)
+
+// C08: the optional immediate delegation stakes, from the converted account, exactly the bond-denom coins of the MESSAGE's
+// vesting schedule that have vested at block time - never more than the grant, never an unvested coin
+func (Keeper).delegateVestedCoins
+    let s = time_unix(msg.StartTime)
+    let V = msg.VestingPeriods
+    let now = time_unix(ctx_blocktime(ctx))
+    let vested = Read(s, V, now)
+    let bd = sk_bonddenom(k.stakingKeeper, ctx)
+    requires msg: msg != nil && PeriodsNonneg(msg.VestingPeriods)
+    modifies bank_bal, acct_bva, stk_delegated
+    ensures staked: result.1 == nil ==> vested[bd] > 0
+            && stk_delegated == upd(old(stk_delegated), to, old(stk_delegated)[to] + vested[bd])
+            && (exists pool Addr :: bank_bal == bank_move(old(bank_bal), to, pool, cone(bd, vested[bd])))
+    ensures bounded: vested[bd] <= Sum(V, len(V))[bd] && vested[bd] >= 0
+    // the validator is the one the message names, and it must exist (call-site clauses: `ret(..)` of this function's own calls
+    // must not appear in an `ensures` - at a caller's call site it has no meaning)
+    call ValAddressFromBech32 requires named: address == msg.ValidatorAddress
+    call GetValidator requires chosen: addr == ret(ValAddressFromBech32, 1, 0)
+    call Delegate requires to_chosen: validator == ret(GetValidator, 1, 0) && delAddr == to
+    call Delegate requires validator_exists: ret(GetValidator, 1, 1) && ret(ValAddressFromBech32, 1, 1) == nil
+    ensures tracking_only: acct_bva == upd(old(acct_bva), to, acct_bva[to]) && acct_bva[to].OriginalVesting == old(acct_bva[to].OriginalVesting)
+            && acct_bva[to].EndTime == old(acct_bva[to].EndTime)
+    ensures failed: result.1 != nil ==> bank_bal == old(bank_bal) && stk_delegated == old(stk_delegated) && acct_bva == old(acct_bva)
+    use entry EndedBounds(s, V, len(V), now)
+@*/
